@@ -23,6 +23,9 @@ import time
 
 VERIF = os.path.dirname(os.path.dirname(os.path.abspath(__file__)))
 REPO = os.environ.get("VERIF_REPO", "/repo")
+# evidence/ and replays/ are written under /verif unless VERIF_OUTROOT redirects them (used when a
+# check is run against a deliberately mutated copy of the repository: bin/mutant-try)
+OUTROOT = os.environ.get("VERIF_OUTROOT", VERIF)
 SPEC = os.path.join(VERIF, "spec")
 HARNESS = os.path.join(VERIF, "harness")
 TLA_CP = "/opt/veriftools/tla/tla2tools.jar:/opt/veriftools/tla/CommunityModules-deps.jar"
@@ -420,7 +423,7 @@ def finish(ctx, level, coverage, viols, assumptions, save=None, extra_lines=None
     rc = 0
     replay = None
     if fresh or seen_known:
-        replay = os.path.join(VERIF, "replays", ctx.pid, "%s-%d" % (ctx.tier, ctx.seed))
+        replay = os.path.join(OUTROOT, "replays", ctx.pid, "%s-%d" % (ctx.tier, ctx.seed))
         shutil.rmtree(replay, ignore_errors=True)
         os.makedirs(replay)
         with open(os.path.join(replay, "info.json"), "w") as f:
@@ -459,8 +462,8 @@ def finish(ctx, level, coverage, viols, assumptions, save=None, extra_lines=None
         "wall_s": round(wall, 2),
         "violations": len(fresh),
     }
-    os.makedirs(os.path.join(VERIF, "evidence"), exist_ok=True)
-    with open(os.path.join(VERIF, "evidence", ctx.pid + ".json"), "w") as f:
+    os.makedirs(os.path.join(OUTROOT, "evidence"), exist_ok=True)
+    with open(os.path.join(OUTROOT, "evidence", ctx.pid + ".json"), "w") as f:
         json.dump(ev, f, indent=1, default=str)
     ctx.say("%s %s seed=%d: %s in %.1fs (violations=%d, known findings seen=%d)" % (
         ctx.pid, ctx.tier, ctx.seed, "FAIL" if rc else "ok", wall, len(fresh), len(seen_known)))
